@@ -55,6 +55,9 @@ class InlineThread:
         return False
 
 
+_mods_time = {}
+
+
 def patch_modules():
     """Rebind the module-level seams of the tree under test (idempotent; everything dereferences the current World)."""
 
@@ -117,7 +120,11 @@ def patch_modules():
     tm.time    = lambda: W().time()
     tm.time_ns = lambda: W().time_ns()
     tm.sleep   = lambda s: W().sleep(s)
+    tm.monotonic    = lambda: W().now / 1000
+    tm.monotonic_ns = lambda: W().now * 1_000_000
+    tm.perf_counter = tm.monotonic
     flt.time   = tm
+    _mods_time['tm'] = tm
 
     th = types.ModuleType('threading')
 
@@ -544,6 +551,7 @@ def execute(scn, prefix=(), base_order='fifo', keep_world=False):
         import openfilter.observability.lineage as lineage_mod
 
         lineage_mod.threading = simthread.module()
+        lineage_mod.time      = _mods_time['tm']      # the same virtual clock the filter sees (lineage.py imports `time`)
 
         runids = {}     # uuid4 run ids -> order of first appearance (the one nondeterministic value in the history)
 
@@ -558,8 +566,13 @@ def execute(scn, prefix=(), base_order='fifo', keep_world=False):
                 if (ms := (lin.get('emit_ms') or {}).get(typ)):      # a slow lineage backend: the request takes virtual time
                     w.sleep(ms / 1000)
 
+                failed = typ in (lin.get('emit_fail') or ())                 # a backend that refuses this kind of event
+
                 w.log.append({'ev': 'lineage', 'f': self.name, 't': w.now, 'type': getattr(event.eventType, 'name', str(event.eventType)),
-                              'run': runids.setdefault(event.run.runId, len(runids)), 'by': w.current.name})
+                              'run': runids.setdefault(event.run.runId, len(runids)), 'by': w.current.name, **({'failed': True} if failed else {})})
+
+                if failed:
+                    raise ConnectionError(f'lineage backend refused {typ}')
 
     def start_filter(f, incarnation=0):
         name = f['name']
